@@ -46,6 +46,12 @@ class Sum:
     def __repr__(self):
         return f"Sum({self.tag}, {self.vals})"
 
+    def __eq__(self, o):
+        return isinstance(o, Sum) and self.tag == o.tag and self.vals == o.vals
+
+    def __hash__(self):
+        return hash((self.tag, self.vals))
+
 
 class Fn:
     def __init__(self, node):
@@ -57,6 +63,15 @@ class Arr:
 
     def __init__(self, vals):
         self.v = tuple(vals)
+
+    def __eq__(self, o):
+        return isinstance(o, Arr) and self.v == o.v
+
+    def __hash__(self):
+        return hash(self.v)
+
+    def __repr__(self):
+        return f"Arr{self.v}"
 
 
 def lower(defn):
@@ -422,6 +437,8 @@ class Interp:
             if arr.v[i] is not None:
                 self.rec.panic("element was not borrowed")
             return [Arr(arr.v[:i] + (x,) + arr.v[i + 1:])]
+        if short == "unpack":
+            return list(a[0].v)
         if short in ("discard_all_borrowed",):
             return []
         if short in ("discard", "discard_empty"):
@@ -445,7 +462,7 @@ class Interp:
 
 
 def run(view: H, fnode, args, rec, fuel=2000, strict_index=False):
-    out = Interp(view, rec, fuel, strict_index).run_region(fnode, list(args))
+    out = e5.guarded(lambda: Interp(view, rec, fuel, strict_index).run_region(fnode, list(args)))
     if len(out) == 0:
         return None
     if len(out) == 1:
